@@ -7,8 +7,9 @@ import GoldModel.Drive.ExSpec
 `Kind:value:sl:sc:el:ec`, `ex` = the prefix form of `exspec`):
 
     prog   := decl*
-    decl   := DP t mname params mods body | DF t mname params t t mods body | DC t t t t opt | DV opt t t tyx { t* } abs | DT t t t tyx
-             | DK - t t | DK + t t t t t | DM t t | DU t t commas
+    decl   := DP t mname params mods body | DF t mname params t t mods body | DC t t t t opt | DV ann opt t t tyx { t* } abs
+             | DT ann t t t tyx | DK ann - t t | DK ann + t t t t t | DM ann t t | DU t t commas | DA t { t* } t
+    ann    := - | + t { t* } t
     mname  := N t | V t t t
     mods   := { (M t | X t t)* }
     body   := - | + stmts t
@@ -342,6 +343,22 @@ def body : P (Option (List (Stmt Ex) × Tok))
     pure (some (b, e), ws)
   | _ => none
 
+def annBody : P Ann
+  | ws => do
+    let (lb, ws) ← tok ws
+    match ws with
+    | "{" :: ws => do
+      let (inner, ws) ← tokList ws; let (rb, ws) ← tok ws
+      pure (⟨lb, inner, rb⟩, ws)
+    | _ => none
+
+def ann : P (Option Ann)
+  | "-" :: ws => some (none, ws)
+  | "+" :: ws => do
+    let (a, ws) ← annBody ws
+    pure (some a, ws)
+  | _ => none
+
 def decl : P (Decl Ex)
   | "DP" :: ws => do
     let (k, ws) ← tok ws; let (n, ws) ← mname ws; let (ps, ws) ← params ws; let (ms, ws) ← mods ws; let (b, ws) ← body ws
@@ -353,28 +370,35 @@ def decl : P (Decl Ex)
   | "DC" :: ws => do
     let (k, ws) ← tok ws; let (n, ws) ← tok ws; let (q, ws) ← tok ws; let (l, ws) ← tok ws; let (m, ws) ← optTok ws
     pure (.const k n q l m, ws)
+  | "DA" :: ws => do
+    let (a, ws) ← annBody ws
+    pure (.annD a, ws)
   | "DV" :: ws => do
-    let (m, ws) ← optTok ws; let (n, ws) ← tok ws; let (c, ws) ← tok ws; let (t, ws) ← tyx ws
+    let (an, ws) ← ann ws; let (m, ws) ← optTok ws; let (n, ws) ← tok ws; let (c, ws) ← tok ws; let (t, ws) ← tyx ws
     match ws with
     | "{" :: ws => do
       let (ms, ws) ← tokList ws; let (a, ws) ← abs ws
-      pure (.field m n c t ms a, ws)
+      pure (.field an m n c t ms a, ws)
     | _ => none
   | "DT" :: ws => do
-    let (k, ws) ← tok ws; let (n, ws) ← tok ws; let (c, ws) ← tok ws; let (t, ws) ← tyx ws
-    pure (.typeD k n c t, ws)
+    let (an, ws) ← ann ws; let (k, ws) ← tok ws; let (n, ws) ← tok ws; let (c, ws) ← tok ws; let (t, ws) ← tyx ws
+    pure (.typeD an k n c t, ws)
   | "DM" :: ws => do
-    let (k, ws) ← tok ws; let (n, ws) ← tok ws
-    pure (.module k n, ws)
+    let (an, ws) ← ann ws; let (k, ws) ← tok ws; let (n, ws) ← tok ws
+    pure (.module an k n, ws)
   | "DU" :: ws => do
     let (k, ws) ← tok ws; let (f, ws) ← tok ws; let (r, ws) ← commas ws
     pure (.uses k f r, ws)
-  | "DK" :: "-" :: ws => do
-    let (k, ws) ← tok ws; let (n, ws) ← tok ws
-    pure (.cls k n none, ws)
-  | "DK" :: "+" :: ws => do
-    let (k, ws) ← tok ws; let (n, ws) ← tok ws; let (a, ws) ← tok ws; let (b, ws) ← tok ws; let (c, ws) ← tok ws
-    pure (.cls k n (some (a, b, c)), ws)
+  | "DK" :: ws => do
+    let (an, ws) ← ann ws
+    match ws with
+    | "-" :: ws => do
+      let (k, ws) ← tok ws; let (n, ws) ← tok ws
+      pure (.cls an k n none, ws)
+    | "+" :: ws => do
+      let (k, ws) ← tok ws; let (n, ws) ← tok ws; let (a, ws) ← tok ws; let (b, ws) ← tok ws; let (c, ws) ← tok ws
+      pure (.cls an k n (some (a, b, c)), ws)
+    | _ => none
   | _ => none
 
 partial def prog : List String → Option (Prog Ex)
